@@ -58,6 +58,16 @@ CHECKS = {
          "All 155 nestings (depth <= 3) of for / function call / partial / contentFor+contentOf / block-with-context, each with random fresh and shadowing lets, shadowing binders and probes of three names before, inside and after every construct; every probe's output must equal what the environment-chain model predicts (no leak, no clobber, outer names readable, top-level let persists).",
          "Trusted: the 20-line environment-chain model; abstentions (plain assignment, multi-iteration let visibility, detached function definitions) are not generated.",
          "DESIGN.md §5 C09"),
+ "C11": ("exploration",
+         "runtime differential monitor: self-describing data graphs; every path of the type graph walked by the real engine and by Go reflection navigation, outputs compared",
+         "Data graphs in which every leaf string spells its own Go path make a wrong element, index or depth visible in the output. All walks of the type graph up to 4 steps from 4 roots (fields, literal/variable/computed indexes, map keys, value and pointer methods, plus failing steps: unknown/unexported members, out-of-range indexes, missing keys, nil pointers) and random walks up to 8 steps are rendered in output, let, if and loop position; a path that navigates in Go must render exactly that leaf, a failing one must give an error or nothing.",
+         "Trusted: the reflection navigator as 'what Go navigation yields'; fixture methods are total.",
+         "DESIGN.md §5 C11"),
+ "C12": ("exploration",
+         "runtime monitor with recording helpers generated by reflect.MakeFunc; a reference binder written from the property text predicts accept/reject and the exact received arguments",
+         "3096 helper signatures (fixed parameters, optional trailing map / helper context by struct or interface type, variadic tails, 6 result shapes) are crossed with all calls of 0-3 arguments over 8 argument kinds, with and without a block. For each call the recording body reports what it received; this must equal the binder's prediction (positional, unchanged values, nil -> zero value, automatic map/context carrying the block, variadic tail), rejected calls must not invoke the helper and must name it in the error, the first result is the value, a non-nil error result fails the render with errors.Is.",
+         "Trusted: the reference binder; Go's reflect.AssignableTo as the meaning of 'assignable'.",
+         "DESIGN.md §5 C12"),
 }
 NOT_YET = "check not built yet in this round (see DESIGN.md §5 for the planned monitor)"
 
